@@ -419,7 +419,8 @@ class CRSDType(Serializable):
             align_to = 64
             return int(numpy.ceil(float(val)/align_to)*align_to)
 
-        kwargs['XML_BLOCK_SIZE'] = len(self.to_xml_string())
+        # NB: the size is in bytes of the block as it is written, which is rendered with the namespace for this version
+        kwargs['XML_BLOCK_SIZE'] = len(self.to_xml_bytes(urn=get_namespace(kwargs['use_version'])))
         kwargs['XML_BLOCK_BYTE_OFFSET'] = xml_offset
         block_end = kwargs['XML_BLOCK_BYTE_OFFSET'] + kwargs['XML_BLOCK_SIZE'] + len(CRSD_SECTION_TERMINATOR)
 
